@@ -117,3 +117,321 @@ def finally_exit(S, outcome):
 
 
 c.exit_hook = finally_exit
+
+
+# ------------------------------------------------------------------------------------ set-up prefix of dispatcher
+from pyvc.interp import LazyOpt  # noqa: E402
+from pyvc.session import ConnModel, Reader, Writer  # noqa: E402
+from pyvc.values import ClassVal, Model, Obj, Opaque  # noqa: E402
+
+
+class TransportModel(Model):
+    model_name = "transport"
+
+    def getattr(self, it, name):
+        if name == "get_extra_info":
+
+            def gei(i, a, k):
+                if a[0] == "peername":
+                    return (fresh("str", "peer_host"), fresh("int", "peer_port"))
+                if a[0] == "sockname":
+                    return (fresh("str", "sock_host"), fresh("int", "sock_port"))
+                raise Unsupported("get_extra_info(" + repr(a[0]) + ")")
+
+            return Builtin("transport.get_extra_info", gei)
+        raise Unsupported("transport." + name)
+
+
+def setup_prefix(u):
+    it = u.it
+    sess = Session(u, mode="SEQ", limits=False, ports=False)
+    fn, tr = find_dispatcher_try(it)
+    prefix = fn.body[: fn.body.index(tr)]
+    srv = sess.server
+    common = it.modules["aioftp.common"]
+    # real StreamThrottle objects on the server (as Server.__init__ builds them)
+    from_limits = it.getattr_(common.attrs["StreamThrottle"], "from_limits")
+    srv.fields["throttle"] = it.call(from_limits, [LazyOpt(it, "int", "srv_rl"), LazyOpt(it, "int", "srv_wl")], {})
+    srv.fields["throttle_per_connection"] = it.call(from_limits, [LazyOpt(it, "int", "conn_rl"), LazyOpt(it, "int", "conn_wl")], {})
+    made = []
+
+    def factory(i, a, k):
+        o = Obj(ClassVal("SomePathIO"), tag=f"pathio{len(made)}")
+        o.fields.update(k)
+        o.fields["state"] = "shared-state"
+        made.append(o)
+        return o
+
+    # the real PathIONursery, constructed by its real __init__; an earlier session has already obtained its backend
+    nursery = it.call(it.modules["aioftp.pathio"].attrs["PathIONursery"], [Builtin("path_io_factory", factory)], {})
+    srv.fields["path_io_factory"] = nursery
+    earlier_conn = Opaque("earlier-connection")
+    it.call(nursery, [], {"timeout": srv.fields["path_timeout"], "connection": earlier_conn})
+    conns = {}
+    srv.fields["connections"] = conns
+    other_key, other_conn = Opaque("other-stream"), Opaque("other-connection")
+    conns[other_key] = other_conn
+    # Connection(**kwargs): the class model of server.Connection (T-conn)
+    made_conns = []
+
+    def conn_builder(i, cls, args, kwargs):
+        s2 = Session.__new__(Session)
+        s2.__dict__.update(sess.__dict__)
+        c2 = ConnModel(sess)
+        for kk, vv in kwargs.items():
+            c2.set_done(kk, vv)
+        made_conns.append(c2)
+        return c2
+
+    conn_cls = ClassVal("Connection")
+    conn_cls.builder = conn_builder
+    env = Env(it.modules[SERVER].env)
+    env.vars["Connection"] = conn_cls
+    reader, writer = Reader("control"), Writer("control")
+    writer.fields["transport"] = TransportModel()
+    env.vars.update(self=srv, reader=reader, writer=writer)
+    orig_getattr = writer.getattr
+    writer.getattr = lambda i, name: TransportModel() if name == "transport" else orig_getattr(i, name)
+    spawned = []
+    it.hooks["on_spawn"] = lambda i, t: spawned.append(t)
+
+    def run_block(i, a, k):
+        def run():
+            i.exec_block(prefix, env, "Server.dispatcher.<locals>")
+
+        return Coro(run, "dispatcher/prefix")
+
+    vars = {"self": srv, "sess": sess, "env": env, "made_conns": made_conns, "made_pathio": made, "spawned": spawned, "reader": reader, "writer": writer, "other": (other_key, other_conn), "conns": conns}
+    return Builtin("dispatcher/prefix", run_block), [], {}, vars
+
+
+c = contract(SERVER, "Server.dispatcher", props=["C16", "C17", "C15", "C10"], name="Server.dispatcher/set-up")
+c.setup = setup_prefix
+c.raises = {}
+
+
+def prefix_exit(S, outcome):
+    it = S.it
+    ctx = it.ctx
+    name = "Server.dispatcher/set-up"
+    if outcome[0] == "raise":
+        ctx.check(f"{name}/raises:unexpected-{outcome[1].cls.name}", z3.BoolVal(False), info={"exc": outcome[1].cls.name})
+        return
+    env, srv = S.vars["env"], S.vars["self"]
+    v = env.vars
+    stream, conn = v.get("stream"), v.get("connection")
+    T16, T17, T15 = {"props": ["C16"]}, {"props": ["C17"]}, {"props": ["C15", "C17"]}
+
+    def same(a, b):
+        return it.unbox(a) is it.unbox(b) or it.eq_term(it.unbox(a), it.unbox(b)) is True
+
+    def or_none(x):
+        x = it.unbox(x)
+        if x is None:
+            return None
+        return x  # a configured 0 counts as 'no timeout' (Python truthiness in StreamIO.__init__)
+
+    # ---- C16: the control stream reads under idle_timeout and writes under socket_timeout
+    rt, wt = it.unbox(stream.fields["read_timeout"]), it.unbox(stream.fields["write_timeout"])
+    idle, sock = it.unbox(srv.fields["idle_timeout"]), it.unbox(srv.fields["socket_timeout"])
+    ctx.check(f"{name}/exit:control-reads-time-out-after-idle_timeout", z3.BoolVal(rt is idle or (idle is not None and rt is None)), info=T16)
+    if idle is not None and rt is None:
+        ctx.check(f"{name}/exit:control-read-timeout-dropped-only-when-zero", idle.t == 0, info=T16)
+    ctx.check(f"{name}/exit:control-writes-time-out-after-socket_timeout", z3.BoolVal(wt is sock or (sock is not None and wt is None)), info=T16)
+    if sock is not None and wt is None:
+        ctx.check(f"{name}/exit:control-write-timeout-dropped-only-when-zero", sock.t == 0, info=T16)
+    for fld in ("socket_timeout", "idle_timeout", "wait_future_timeout", "block_size", "path_timeout", "path_io", "command_connection", "response"):
+        if conn.slots.get(fld) is None or conn.slots[fld].present is not True:
+            ctx.check(f"{name}/exit:session-field-{fld}-initialised", z3.BoolVal(False), info=T17)
+            return
+    for fld, src in (("socket_timeout", "socket_timeout"), ("idle_timeout", "idle_timeout"), ("wait_future_timeout", "wait_future_timeout"), ("block_size", "block_size"), ("path_timeout", "path_timeout")):
+        ctx.check(f"{name}/exit:session-carries-the-server's-{fld}", z3.BoolVal(conn.slots[fld].fut.value is srv.fields[src]), info=T16)
+    # ---- C17 / C15: what is fresh per session and what is shared
+    th = stream.fields["throttles"]
+    ctx.check(f"{name}/exit:server-wide-throttle-is-the-shared-object", z3.BoolVal(th.get("server_global") is srv.fields["throttle"]), info=T15)
+    pc = th.get("server_per_connection")
+    tpc = srv.fields["throttle_per_connection"]
+    fresh_clone = isinstance(pc, Obj) and pc is not tpc and pc.fields["read"] is not tpc.fields["read"] and pc.fields["write"] is not tpc.fields["write"]
+    ctx.check(f"{name}/exit:per-connection-throttle-is-a-fresh-clone", z3.BoolVal(bool(fresh_clone)), info=T15)
+    if fresh_clone:
+        same_lim = same(pc.fields["read"].fields["_limit"], tpc.fields["read"].fields["_limit"]) and same(pc.fields["write"].fields["_limit"], tpc.fields["write"].fields["_limit"])
+        ctx.check(f"{name}/exit:clone-keeps-the-configured-limits", z3.BoolVal(bool(same_lim)), info=T15)
+    ctx.check(f"{name}/exit:stream-wraps-this-socket", z3.BoolVal(stream.fields["reader"] is S.vars["reader"] and stream.fields["writer"] is S.vars["writer"]), info=T17)
+    ctx.check(f"{name}/exit:one-fresh-connection-object", z3.BoolVal(len(S.vars["made_conns"]) == 1 and conn is S.vars["made_conns"][0]), info=T17)
+    mp = S.vars["made_pathio"]
+    ctx.check(f"{name}/exit:one-new-backend-instance-bound-to-this-session", z3.BoolVal(len(mp) == 2 and conn.slots["path_io"].fut.value is mp[1] and mp[1].fields.get("connection") is conn and mp[0].fields.get("connection") is not conn), info=T17)
+    ctx.check(f"{name}/exit:command-connection-is-this-stream", z3.BoolVal(conn.slots["command_connection"].fut.value is stream), info=T17)
+    conns = S.vars["conns"]
+    ok_reg = conns.get(stream) is conn and conns.get(S.vars["other"][0]) is S.vars["other"][1] and len(conns) == 2
+    ctx.check(f"{name}/exit:registered-under-its-own-key-others-untouched", z3.BoolVal(bool(ok_reg)), info=T17)
+    def slotval(n):
+        sl = conn.slots.get(n)
+        return sl.fut.value if sl is not None and sl.present is True and sl.fut.done is True else KeyError
+
+    ew = slotval("extra_workers")
+    ctx.check(f"{name}/exit:fresh-empty-worker-set", z3.BoolVal(isinstance(ew, set) and not ew and not any(ew is x for x in S.vars.get("preexisting_sets", []))), info=T17)
+    init_ok = slotval("acquired") is False and slotval("restart_offset") == 0 and slotval("passive_server_port") == 0
+    ctx.check(f"{name}/exit:initial-session-state", z3.BoolVal(bool(init_ok)), info={"props": ["C17", "C10", "C05"]})
+    for fld in ("user", "logged", "current_directory", "rename_from", "passive_server", "data_connection"):
+        sl = conn.slots.get(fld)
+        ctx.check(f"{name}/exit:no-inherited-{fld}", z3.BoolVal(sl is None or sl.present is False), info=T17)
+    names = sorted(getattr(t.coro, "name", "?") for t in S.vars["spawned"])
+    ctx.check(f"{name}/exit:starts-greeting-writer-and-reader", z3.BoolVal(names == ["Server.greeting", "Server.parse_command", "Server.response_writer"]), info={"props": ["C17", "C05"], "names": names})
+    # the response callable feeds this session's own queue
+    q = v.get("response_queue")
+    resp = conn.slots["response"].fut.value
+    it.call(resp, ["000", "probe"], {})
+    ctx.check(f"{name}/exit:replies-go-to-the-session's-own-queue", z3.BoolVal(len(q.items) == 1 and q.items[0] == ("000", "probe")), info=T17)
+
+
+c.exit_hook = prefix_exit
+
+
+# ------------------------------------------------------------------------------------ body of `for task in done:`
+from pyvc.core import BreakSig, ContinueSig, ReturnSig  # noqa: E402
+from pyvc.models_aio import QueueModel  # noqa: E402
+
+
+def find_for_body(it):
+    fn, tr = find_dispatcher_try(it)
+    fors = [n for st in tr.body for n in ast.walk(st) if isinstance(n, ast.For) and isinstance(n.target, ast.Name) and n.target.id == "task"]
+    if len(fors) != 1:
+        raise Unsupported("Server.dispatcher: expected exactly one `for task in ...` loop inside the try")
+    return fors[0].body
+
+
+def command_table(it, server):
+    """self.commands_mapping as Server.__init__ builds it: the Dict display is read from the AST and evaluated"""
+    cls = it.modules[SERVER].attrs["Server"]
+    init = cls.attrs["__init__"].node
+    for n in ast.walk(init):
+        if isinstance(n, ast.Assign) and isinstance(n.targets[0], ast.Attribute) and n.targets[0].attr == "commands_mapping":
+            env = Env(it.modules[SERVER].env)
+            env.vars["self"] = server
+            return it.eval(n.value, env)
+    raise Unsupported("Server.__init__: commands_mapping assignment not found")
+
+
+KINDS = ["True", "False", "None", "command", "PathIOError", "ValueError", "UnicodeDecodeError", "ConnectionResetError", "TimeoutError", "CancelledError"]
+
+
+def setup_for_body(u):
+    it = u.it
+    sess = Session(u, mode="SEQ", limits=False, ports=False, path_theory=False)
+    body = find_for_body(it)
+    srv, conn = sess.server, sess.conn
+    table = command_table(it, srv)
+    srv.fields["commands_mapping"] = table
+    kind = KINDS[u.choose(len(KINDS), "finished-task-kind")]
+    task = TaskModel(None, tag="finished")
+    task.state = "done"
+    cmdv = restv = None
+    if kind == "True":
+        task.result_v = True
+    elif kind == "False":
+        task.result_v = False
+    elif kind == "None":
+        task.result_v = None
+    elif kind == "command":
+        keys = sorted(table)
+        k = u.choose(len(keys) + 1, "verb")
+        if k < len(keys):
+            cmdv = keys[k]
+        else:
+            cmdv = fresh("str", "unknown_verb")
+            for kk in keys:
+                u.assume(cmdv.t != z3.StringVal(kk))
+        restv = fresh("str", "rest")
+        task.result_v = (cmdv, restv)
+    else:
+        cls = it.modules["aioftp.errors"].attrs["PathIOError"] if kind == "PathIOError" else it.exc_classes[kind]
+        task.exc = it.make_exc(cls)
+    queue = QueueModel("responses")
+    stream = conn.slots["command_connection"].fut.value
+    pending = {TaskModel(None, tag="response_writer")}
+    env = Env(it.modules[SERVER].env)
+    env.vars.update(self=srv, connection=conn, pending=pending, response_queue=queue, stream=stream, task=task)
+    spawned = []
+    it.hooks["on_spawn"] = lambda i, t: spawned.append(t)
+    offset0 = conn.slots["restart_offset"].fut.value
+    flow = {}
+
+    def run_block(i, a, k):
+        def run():
+            try:
+                i.exec_block(body, env, "Server.dispatcher.<locals>")
+                flow["how"] = "fallthrough"
+            except ContinueSig:
+                flow["how"] = "continue"
+            except ReturnSig:
+                flow["how"] = "return"
+            except BreakSig:
+                flow["how"] = "break"
+
+        return Coro(run, "dispatcher/for-body")
+
+    vars = {"self": srv, "sess": sess, "kind": kind, "cmd": cmdv, "rest": restv, "spawned": spawned, "pending": pending, "pending0": set(pending), "flow": flow, "offset0": offset0, "table": table, "queue": queue}
+    return Builtin("dispatcher/for-body", run_block), [], {}, vars
+
+
+c = contract(SERVER, "Server.dispatcher", props=["C05", "C13", "C19", "C16"], name="Server.dispatcher/for-task-in-done")
+c.setup = setup_for_body
+c.raises = {"BaseException": []}
+
+
+def for_body_exit(S, outcome):
+    it = S.it
+    ctx = it.ctx
+    name = "Server.dispatcher/for-task-in-done"
+    sess, kind = S.vars["sess"], S.vars["kind"]
+    cs = codes(sess)
+    flow = S.vars["flow"].get("how")
+    spawned = S.vars["spawned"]
+    new_pending = [t for t in S.vars["pending"] if t not in S.vars["pending0"]]
+    T = {"props": ["C05", "C13", "C19"]}
+    if outcome[0] == "raise":
+        en = outcome[1].cls.name
+        # only a task's own non-PathIOError exception may leave the loop (it ends this session through the outer handlers)
+        ctx.check(f"{name}/raises:only-the-finished-task's-own-exception-propagates", z3.BoolVal(kind in KINDS[5:] and en == kind), info=T)
+        ctx.check(f"{name}/raises:no-reply-on-the-way-out", z3.BoolVal(not cs), info=T)
+        return
+    if kind == "PathIOError":
+        ctx.check(f"{name}/exit:backend-failure-answered-451-and-the-session-continues", z3.BoolVal(cs == ["451"] and flow == "continue" and not spawned and not new_pending), info={"props": ["C13", "C05"]})
+        return
+    if kind in KINDS[5:]:
+        ctx.check(f"{name}/exit:a-failed-task-must-not-be-swallowed", z3.BoolVal(False), info=T)
+        return
+    if kind == "False":
+        joined = any(e[0] == "join" for e in ctx.events)
+        ctx.check(f"{name}/exit:False-ends-the-session-after-flushing-the-replies", z3.BoolVal(flow == "return" and joined and not spawned), info=T)
+        return
+    if kind in ("True", "None"):
+        ctx.check(f"{name}/exit:a-finished-handler-changes-nothing", z3.BoolVal(flow == "fallthrough" and not cs and not spawned and not new_pending), info=T)
+        return
+    # ---- a parsed command line
+    cmd = S.vars["cmd"]
+    names = [getattr(t.coro, "name", "?") for t in spawned]
+    rearmed = names.count("Server.parse_command") == 1
+    ctx.check(f"{name}/exit:exactly-one-new-reader-armed", z3.BoolVal(rearmed and flow == "fallthrough"), info=T)
+    others = [t for t in spawned if getattr(t.coro, "name", "?") != "Server.parse_command"]
+    conn = sess.conn
+    ro = conn.slots["restart_offset"].fut.value
+    if isinstance(cmd, str):
+        target = S.vars["table"][cmd]
+        want = target.func.qualname if hasattr(target, "func") else "?"
+        ok = len(others) == 1 and not cs and all(t in S.vars["pending"] for t in spawned)
+        ctx.check(f"{name}/exit:known-verb-starts-exactly-its-handler-and-no-reply", z3.BoolVal(bool(ok)), info=dict(T, cmd=cmd))
+        if ok:
+            meta = others[0].coro.meta
+            clo = meta.get("closure")
+            args_ok = clo is not None and meta["env"].vars.get("connection") is conn and meta["env"].vars.get("rest") is S.vars["rest"]
+            ctx.check(f"{name}/exit:handler-gets-this-session-and-the-argument", z3.BoolVal(bool(args_ok)), info=T)
+        if cmd in ("retr", "stor", "appe"):
+            ctx.check(f"{name}/exit:transfer-verbs-keep-the-restart-offset", z3.BoolVal(ro is S.vars["offset0"]), info=T)
+        else:
+            ctx.check(f"{name}/exit:restart-offset-cleared-by-any-other-command", tt(it.eq_term(ro, 0)), info=T)
+    else:
+        ctx.check(f"{name}/exit:unknown-verb-answered-502-and-nothing-else", z3.BoolVal(cs == ["502"] and not others), info=T)
+
+
+c.exit_hook = for_body_exit
